@@ -1,5 +1,7 @@
 import StraxModel.Driver.Parse
 import StraxModel.Model.Pipeline
+import StraxModel.Lemmas.PipelineVocab
+import StraxModel.Lemmas.PipelineIter
 namespace Strax.Driver
 open Strax Strax.Pipeline Strax.Pipeline.Vocab
 
@@ -39,6 +41,19 @@ def c01ParseChunk (s : String) : Option Chunk :=
            rows := ← parseRows rows, subruns := none, superrun := [], target := 0 }
   | _ => none
 
+/-- `name=chunk;chunk;…` with chunks `start~stop~rows`: a plain stream of run "0" -/
+def c01ParseStream (kindOf : List (String × String)) (tok : String) : Option (String × List Chunk) :=
+  match tok.splitOn "=" with
+  | [name, cs] => do
+    let chunks ← (cs.splitOn ";").mapM (fun c => match c.splitOn "~" with
+      | [a, b, rows] => do
+        let a ← a.toInt?; let b ← b.toInt?
+        pure ({ dataType := name, kind := (lookup name kindOf).getD name, runId := some "0", start := a, stop := b,
+                rows := ← parseRows rows, subruns := none, superrun := [⟨"0", a, b⟩], target := 1 } : Chunk)
+      | _ => none)
+    pure (name, chunks)
+  | _ => none
+
 def c01B (b : Bool) : String := if b then "1" else "0"
 
 /-- ids of one column; `-` when empty (also inside a multi-target line) -/
@@ -58,6 +73,33 @@ def handleC01 : List String → Option String
     let t0 ← t0.toInt?; let t1 ← t1.toInt?
     let cs ← chunks.mapM c01ParseChunk
     pure s!"ok law={c01B (lawAbidingB cs)} span={c01B (span cs == some (t0, t1))} global={c01B (lawAbidingGlobalB cs)}"
+  | "c01.exec" :: graph :: strict :: kinds :: shown :: t0 :: t1 :: rest => do
+    -- the CHUNKED semantics: `Pipeline.exec` (the function `pipeline_content` is about) on the very chunking the real
+    -- single-thread run used, identity transports (PostOffice), `Plugin.iter` for nodes with two dependencies, what
+    -- the loaders delivered as stored streams; answer: per computed data type the chunk boundaries and row ids
+    let nodes ← (splitList graph ";").mapM c01ParseNode
+    let bits ← (splitList strict ",").mapM parseBool
+    let kindOf ← (splitList kinds ",").mapM (fun tok => match tok.splitOn ":" with
+      | [a, b] => some (a, b)
+      | _ => none)
+    let T0 ← t0.toInt?; let T1 ← t1.toInt?
+    let (envToks, storedToks) := (rest.takeWhile (· != "|"), (rest.dropWhile (· != "|")).drop 1)
+    let env ← envToks.mapM (c01ParseStream kindOf)
+    let stored ← storedToks.mapM (c01ParseStream kindOf)
+    let strictOf : List (String × Bool) := (nodes.map (fun n => Vocab.out0 n.outs)).zip bits
+    let a2 : VNode → Aligner := fun n =>
+      Aligner.iter "0" T0 T1 (n.deps.map fun d => ⟨d, (lookup d kindOf).getD d⟩)
+        ((lookup (Vocab.out0 n.outs) strictOf).getD true)
+    let plan : Plan := ⟨fun _ _ => Transport.ident, stored⟩
+    pure <| match exec plan (nodes.map (Vocab.toNode a2)) env with
+      | .error .other => "skip"          -- outside the guard of `Aligner.iter` (C08's domain) or an arity error
+      | .error e => showErr e
+      | .ok env' =>
+        let outs := (nodes.flatMap (·.outs)).filter (fun d => (splitList shown ",").contains d)
+        "ok " ++ " ".intercalate (outs.map fun d =>
+          d ++ "=" ++ (match lookup d env' with
+            | some s => if s.isEmpty then "-" else ";".intercalate (s.map fun c => s!"{c.start}~{c.stop}~{c01Ids c.rows}")
+            | none => "?"))
   | _ => none
 
 end Strax.Driver
